@@ -63,6 +63,11 @@ def gen_case(rng, kind='NM', nmax=7, malformed=False, zero_init_dur=False, direc
         case['i0'] = None; case['rho'] = F(1, 4); case['r0'] = [gc.order[0]]   # rho + recovereds: EoNError
     elif r < 0.1:
         case['i0'] = None; case['rho'] = rng.choice([None, F(1, 4), F(1, 2), F(3, 8), F(1)])
+    elif r < 0.2:
+        # the default start node with initial_recovereds given: drawn from the nodes that are NOT initially
+        # recovered (/repo 0a3e1b4); now and then every node is initially recovered: random.sample([], 1) -> ValueError
+        case['i0'] = None; case['rho'] = None
+        case['r0'] = list(gc.order) if rng.random() < 0.15 else rng.sample(gc.order, rng.randint(0, max(0, n - 1)))
     else:
         k = rng.randint(1, min(3, n)) if rng.random() < 0.95 else 0
         sel = rng.sample(gc.order, k)
@@ -351,9 +356,9 @@ def initial_ids(case, impl, draws):
     e = impl['log'][0] if impl['log'] else None
     if e is None or e[0] != 'S': return None
     k = e[1]
-    if k > n or k < 0: return None
-    r = int(F(draws[0])) % max(1, n)
-    pop = sorted(e[2])
+    pop = sorted(e[2])          # the population the code handed to random.sample (filtered by initial_recovereds)
+    if k > len(pop) or k < 0: return None
+    r = int(F(draws[0])) % max(1, len(pop))
     return [x[0] for x in (pop[r:] + pop[:r])[:k]]
 
 
@@ -366,10 +371,17 @@ def oracle(case, impl, m=None):
         if not (impl['status'] == 'EXC' and impl['err'] == 'EoNError'):
             return [('rho+initial', 'rho together with initial nodes was not rejected with EoNError (got %s %s)' % (impl['status'], impl.get('err')))]
         return []
+    if case['i0'] is None and case['rho'] is None and case['r0'] is not None and set(gc.order) <= set(case['r0']):
+        # every node initially recovered and no start node given: random.sample([], 1) raises ValueError
+        if not (impl['status'] == 'EXC' and impl['err'] == 'ValueError'):
+            return [('default-start/all-recovered', 'no node is left to start from, the code must fail in random.sample (ValueError); got %s %s' % (impl['status'], impl.get('err')))]
+        return []
     if impl['status'] == 'EXC':
         return [('crash', 'raised %s on a valid input' % impl['err'])]
     draws = m['draws'] if m else []
     I0 = initial_ids(case, impl, draws)
+    if I0 is not None and case['i0'] is None and case['r0'] is not None and set(I0) & set(im[u] for u in case['r0']):
+        return [('default-start/initially-recovered', 'the randomly chosen start node %r is one of the initially recovered nodes' % (I0,))]
     if I0 is None:
         return [('rho/sample', 'initial infected nodes not drawn with random.sample: %r' % (impl['log'][:1],))]
     R0 = set(im[u] for u in (case['r0'] or []))
